@@ -830,6 +830,20 @@ func (vc *VC) applySpecArgs(sf *SpecFunc, argEs []CExpr, env *SpecEnv) Term {
 				return vc.specFail("spec function %s argument %d: sort %s, expected %s", sf.Name, i, v.Sort, ps)
 			}
 		}
+		// a ground map/slice argument is a Go value: its representation facts
+		// (0 <= len, nil implies empty, ...) are needed by guarded axioms and may
+		// lie deeper than the facts assumed for the parameters
+		if si := vc.ss.info[v.Sort]; si != nil && (si.Kind == "map" || si.Kind == "slice") && pt != nil && !strings.Contains(v.S, "?") {
+			if vc.repFacts == nil {
+				vc.repFacts = map[string]bool{}
+			}
+			if !vc.repFacts[v.S] {
+				vc.repFacts[v.S] = true
+				if f := vc.rangeFacts(v, pt, 2); f.S != "true" {
+					vc.assume(tBool(true), f)
+				}
+			}
+		}
 		args = append(args, v)
 	}
 	return vc.applySpec(sf, args)
